@@ -9,6 +9,13 @@ import (
 	"golang.org/x/tools/go/ssa"
 )
 
+// baseRef names an object whose field a loop writes: the value v (a parameter, or a load of a variable the loop
+// does not assign), optionally followed by a chain of field loads (x.Q.queue is base x, path [Q]).
+type baseRef struct {
+	V    ssa.Value
+	Path []fieldInfo
+}
+
 func computeLoops(fn *ssa.Function) map[*ssa.BasicBlock]*loopInfo {
 	loops := map[*ssa.BasicBlock]*loopInfo{}
 	for _, b := range fn.Blocks {
@@ -16,7 +23,7 @@ func computeLoops(fn *ssa.Function) map[*ssa.BasicBlock]*loopInfo {
 			if s.Dominates(b) { // back edge b -> s
 				li := loops[s]
 				if li == nil {
-					li = &loopInfo{head: s, body: map[*ssa.BasicBlock]bool{s: true}, fields: map[string][]ssa.Value{}, whole: map[string]bool{}}
+					li = &loopInfo{head: s, body: map[*ssa.BasicBlock]bool{s: true}, fields: map[string][]baseRef{}, whole: map[string]bool{}}
 					loops[s] = li
 				}
 				// natural loop: nodes that reach b without passing s
@@ -69,9 +76,9 @@ func computeLoops(fn *ssa.Function) map[*ssa.BasicBlock]*loopInfo {
 }
 
 // loopWrites computes what a loop may modify (cells and heap maps).
-func (c *Ctx) loopWrites(fr *Frame, li *loopInfo) (cells map[interface{}]bool, fields map[string][]ssa.Value, whole map[string]bool, all bool) {
+func (c *Ctx) loopWrites(fr *Frame, li *loopInfo) (cells map[interface{}]bool, fields map[string][]baseRef, whole map[string]bool, all bool) {
 	cells = map[interface{}]bool{}
-	fields = map[string][]ssa.Value{}
+	fields = map[string][]baseRef{}
 	whole = map[string]bool{}
 	addAddr := func(a ssa.Value) {
 		switch x := a.(type) {
@@ -83,7 +90,7 @@ func (c *Ctx) loopWrites(fr *Frame, li *loopInfo) (cells map[interface{}]bool, f
 			cells[x] = true
 		case *ssa.FieldAddr:
 			fi := c.fieldByIndex(x.X.Type(), x.Field)
-			fields[fi.Key] = append(fields[fi.Key], x.X)
+			fields[fi.Key] = append(fields[fi.Key], baseRef{V: x.X})
 		case *ssa.IndexAddr:
 			// element store: the sequence lives where X was loaded from
 			if u, ok := x.X.(*ssa.UnOp); ok && u.Op == token.MUL {
@@ -94,7 +101,7 @@ func (c *Ctx) loopWrites(fr *Frame, li *loopInfo) (cells map[interface{}]bool, f
 					cells[o] = true
 				case *ssa.FieldAddr:
 					fi := c.fieldByIndex(o.X.Type(), o.Field)
-					fields[fi.Key] = append(fields[fi.Key], o.X)
+					fields[fi.Key] = append(fields[fi.Key], baseRef{V: o.X})
 				}
 			} else if al, ok := x.X.(*ssa.Alloc); ok {
 				cells[al] = true
@@ -126,12 +133,17 @@ func (c *Ctx) loopWrites(fr *Frame, li *loopInfo) (cells map[interface{}]bool, f
 				if x.Op == token.ARROW {
 					whole[chLen] = true
 					whole[chVal] = true
+					whole[ctxDoneKey] = true
 				}
 			case *ssa.Select:
 				whole[chLen] = true
 				whole[chVal] = true
+				whole[ctxDoneKey] = true
 			case ssa.CallInstruction:
 				cc := x.Common()
+				if cc.IsInvoke() && cc.Method.Name() == "Err" {
+					whole[ctxDoneKey] = true
+				}
 				if c.preciseCallWrites(fr, cc, fields, whole) {
 					continue
 				}
@@ -301,14 +313,22 @@ func (c *Ctx) enterLoopHead(st *State, fr *Frame, li *loopInfo, pred *ssa.BasicB
 			info := c.V.heapKeys[key]
 			precise := !whole[key]
 			for _, b := range bases {
-				if !stableBase(li, cells, b) {
+				if !stableBase(li, cells, b.V) {
 					precise = false
+				}
+				for _, pf := range b.Path {
+					if _, written := fields[pf.Key]; written || whole[pf.Key] {
+						precise = false
+					}
 				}
 			}
 			if precise {
 				h := c.heapCur(st, key, arrSort(info.Sort))
 				for _, b := range bases {
-					ref := c.stableBaseTerm(st, fr, b)
+					ref := c.stableBaseTerm(st, fr, b.V)
+					for _, pf := range b.Path {
+						ref = c.loadField(st, ref, pf)
+					}
 					fv := c.fresh("lh_"+key, info.Sort)
 					h = sto(h, ref, fv)
 				}
@@ -338,7 +358,7 @@ func (c *Ctx) enterLoopHead(st *State, fr *Frame, li *loopInfo, pred *ssa.BasicB
 				switch key {
 				case chLen, chVal:
 					info = heapKeyInfo{Sort: SInt}
-				case chClosed:
+				case chClosed, ctxDoneKey:
 					info = heapKeyInfo{Sort: SBool}
 				default:
 					continue
@@ -405,7 +425,7 @@ func (c *Ctx) havocAll(st *State) {
 // (x.f with x a parameter, object(x) with x an interface built from a pointer at the call site):
 // the written locations are recorded as (heap map, base value) pairs so that a loop head can havoc
 // exactly those locations when the base is loop-invariant. Returns false when the call needs the general treatment.
-func (c *Ctx) preciseCallWrites(fr *Frame, cc *ssa.CallCommon, fields map[string][]ssa.Value, whole map[string]bool) bool {
+func (c *Ctx) preciseCallWrites(fr *Frame, cc *ssa.CallCommon, fields map[string][]baseRef, whole map[string]bool) bool {
 	if _, isB := cc.Value.(*ssa.Builtin); isB {
 		return false
 	}
@@ -463,14 +483,25 @@ func (c *Ctx) preciseCallWrites(fr *Frame, cc *ssa.CallCommon, fields map[string
 	}
 	type pend struct {
 		key  string
-		base ssa.Value
+		base baseRef
 	}
 	var out []pend
 	var wholeKeys []string
 	for _, m := range fc.Modifies {
 		switch e := m.E.(type) {
 		case EField:
-			id, ok := e.X.(EIdent)
+			// x.f or x.g.h.f with x a parameter
+			var names []string
+			cur := Expr(e)
+			for {
+				if f, ok := cur.(EField); ok {
+					names = append([]string{f.Name}, names...)
+					cur = f.X
+					continue
+				}
+				break
+			}
+			id, ok := cur.(EIdent)
 			if !ok {
 				return false
 			}
@@ -478,11 +509,21 @@ func (c *Ctx) preciseCallWrites(fr *Frame, cc *ssa.CallCommon, fields map[string
 			if a == nil {
 				return false
 			}
-			fis, ok := c.resolveFieldChain(a.Type(), e.Name)
-			if !ok || len(fis) != 1 {
+			var path []fieldInfo
+			t := a.Type()
+			for _, n := range names {
+				fis, ok := c.resolveFieldChain(t, n)
+				if !ok {
+					return false
+				}
+				path = append(path, fis...)
+				t = fis[len(fis)-1].GoT
+			}
+			last := path[len(path)-1]
+			if isRepoStruct(last.GoT) {
 				return false
 			}
-			out = append(out, pend{fis[0].Key, a})
+			out = append(out, pend{last.Key, baseRef{V: a, Path: path[:len(path)-1]}})
 		case ECall:
 			switch e.Fn {
 			case "alloc":
@@ -503,7 +544,7 @@ func (c *Ctx) preciseCallWrites(fr *Frame, cc *ssa.CallCommon, fields map[string
 					if isRepoStruct(fi.GoT) {
 						continue
 					}
-					out = append(out, pend{fi.Key, mi.X})
+					out = append(out, pend{fi.Key, baseRef{V: mi.X}})
 				}
 			default:
 				return false
@@ -541,7 +582,7 @@ func (c *Ctx) stableBaseTerm(st *State, fr *Frame, v ssa.Value) Term {
 	return c.term(st, fr, v)
 }
 
-func sortedStrKeys(m map[string][]ssa.Value) []string {
+func sortedStrKeys(m map[string][]baseRef) []string {
 	var out []string
 	for k := range m {
 		out = append(out, k)
